@@ -23,6 +23,8 @@ STRUCT_PROGRAMS = [
     ("out = ndx.broadcast_to(x, nda.shape(x))", "out = x"), ("out = ndx.squeeze(ndx.expand_dims(x, 0), 0)", "out = x"), ("out = x.copy()", "out = x.copy()"),
     ("out = x[::-1, ...]", "out = x[::-1, ...]"), ("out = x[0:1, ...]", "out = x[0:1, ...]"), ("y = x.copy(); y[0, ...] = x[-1, ...]; out = y", "y = x.copy(); y[0, ...] = x[-1, ...]; out = y"),
     ("out = ndx.concat([r[None] for r in x]) if False else ndx.reshape(x, [-1])", "out = np.reshape(x, [-1])"),
+    ("y = x.copy(); ndx.reshape(y, [-1], copy=False); out = ndx.Array._from_fields(y.dtype, lo=y.lo + 0, hi=y.hi)", "out = np.reshape(x, [-1])"),
+    ("y = x.copy(); y._set(ndx.flip(y)); out = ndx.Array._from_fields(y.dtype, lo=y.lo, hi=y.hi + 0)", "out = np.flip(x)"),
     # the value / metadata is read, then a field is updated in place through the field object, then the array is used again
     ("y = x.copy(); r_ = (y.to_numpy(), y.ndim, repr(y)); y.lo[0, ...] = 100; out = y", "y = x.copy(); y0 = y.reshape(-1); y[0, ...] = np.frompyfunc(lambda t: (100, t[1]), 1, 1)(y[0, ...]) if y[0, ...].ndim else (100, y[0, ...].item()[1]); out = y"),
     ("y = x.copy(); r_ = y.to_numpy(); y.lo[...] = 7; out = ndx.flip(y)", "y = np.frompyfunc(lambda t: (7, t[1]), 1, 1)(x.copy()); out = np.flip(y)"),
